@@ -13,6 +13,18 @@ namespace occa {
 
   void typelessForLoop::typelessRun(const occa::scope &scope,
                                     const baseFunction &fn) const {
+    // Nothing to run (and, for an empty index array, no typed memory to pass)
+    for (const occa::iteration &it : outerIterations) {
+      if (it.isEmpty()) {
+        return;
+      }
+    }
+    for (const occa::iteration &it : innerIterations) {
+      if (it.isEmpty()) {
+        return;
+      }
+    }
+
     OCCA_JIT(getForLoopScope(scope, fn), (
       OCCA_LOOP_START_OUTER_LOOPS
       OCCA_LOOP_START_INNER_LOOPS
